@@ -27,6 +27,7 @@ import (
 	"errors"
 	"fmt"
 	"math/bits"
+	"os"
 	"strings"
 	"sync"
 	"testing"
@@ -83,7 +84,7 @@ var shutCauses = []struct {
 	base string
 	w    int
 }{
-	{"close", "est", 26}, {"idle", "est", 8}, {"keepalive", "est", 6}, {"outage", "est", 6}, {"reset", "est", 8},
+	{"close", "est", 24}, {"proto", "est", 8}, {"idle", "est", 8}, {"keepalive", "est", 6}, {"outage", "est", 6}, {"reset", "est", 8},
 	{"tr-close", "est", 6}, {"tr-close", "dial", 5}, {"ln-close", "dial", 8}, {"dial-cancel", "dial", 7},
 	{"alpn", "dial", 4}, {"cert", "dial", 4}, {"hs-silent-server", "dial", 4}, {"hs-silent-client", "dial", 4}, {"hs-slow", "dial", 4},
 }
@@ -309,7 +310,8 @@ type shutRun struct {
 	trCloseNS     [2][2]int64
 	trClosed      [2]bool
 	resetDone     bool
-	last1RTT      [2][]byte // last datagram carrying a 1-RTT packet, per direction
+	last1RTT      [2][]byte // last datagram carrying a 1-RTT packet, per direction (the peer's current connection ID)
+	lastBig       [2][]byte // the last one large enough to be answered by a stateless reset
 	extraTr       []*quic.Transport
 	extraConns    []*simnet.SimConn
 	aliveCheckNS  int64
@@ -323,6 +325,9 @@ type shutRun struct {
 	cfgIdle       [2]time.Duration
 	finalCloseNS  int64
 	giveUpNS      int64
+	protoNS       int64
+	protoCode     uint64
+	lastPkt       [2]*TapPacket
 	afterWG       sync.WaitGroup
 	deferred      [][2]string
 }
@@ -331,6 +336,16 @@ func (s *shutRun) now() int64 { return s.w.NowNS() }
 
 // stamp: a timestamp that is never 0 (0 means "did not happen")
 func (s *shutRun) stamp() int64 { return max(s.w.NowNS(), 1) }
+
+// known: a defect of the unchanged tree that has been analysed (see the findings); SHUT_HIDE_KNOWN=1 turns these
+// into notes while the workload itself is being debugged.
+func (s *shutRun) known(sig, f string, a ...any) {
+	if os.Getenv("SHUT_HIDE_KNOWN") != "" {
+		s.res.Note("C17 known: " + sig)
+		return
+	}
+	s.report(sig, f, a...)
+}
 
 func (s *shutRun) report(sig, f string, a ...any) {
 	if s.on["C17"] || s.on["all"] {
@@ -466,7 +481,11 @@ func (s *shutRun) actor(side int, a ShutActor) {
 			}
 		}
 		b := wPayload(s.sc.Seed, 0, 16384)
-		for i := 0; i < min(max(a.N, 1), shutMaxWrites); i++ {
+		n := min(max(a.N, 1), shutMaxWrites)
+		if win := s.sc.Cfg.Win[(1-side)*2]; win > 0 {
+			n = min(n, int(24*win/16384)+1) // tiny windows move a window per round trip: keep the transfer short
+		}
+		for i := 0; i < n; i++ {
 			if s.call(side, "write", false, func() error { _, e := wr.Write(b); return e }) != nil {
 				return
 			}
@@ -580,6 +599,7 @@ func (s *shutRun) afterEnd(side int) {
 	s.mu.Lock()
 	sd.pto = pto
 	probe := s.last1RTT[1-side]
+	big := s.lastBig[1-side]
 	s.mu.Unlock()
 	inject := func(n int) bool {
 		for i := 0; i < n && probe != nil; i++ {
@@ -605,6 +625,7 @@ func (s *shutRun) afterEnd(side int) {
 		return
 	}
 	s.laterCalls(side)
+	probe = big
 	s.mu.Lock()
 	if s.sc.ProbesLate > 0 && probe != nil {
 		sd.lateNS = s.now()
@@ -618,10 +639,14 @@ func (s *shutRun) afterEnd(side int) {
 
 func shutPTO(c *quic.Conn, maxAckDelay time.Duration) time.Duration {
 	st := c.ConnectionStats()
-	if st.MeanDeviation == 0 && st.SmoothedRTT == 100*time.Millisecond && st.LatestRTT == 100*time.Millisecond {
-		return 200 * time.Millisecond // no RTT sample yet: twice the initial RTT (RFC 9002 6.2.2)
+	pto := st.SmoothedRTT + max(4*st.MeanDeviation, time.Millisecond)
+	if st.MeanDeviation == 0 {
+		// no RTT sample yet (the smoothed value is the initial one, or one restored from a token): twice the
+		// initial RTT (RFC 9002 6.2.2). A deviation that decayed to zero lands here too: the larger value only
+		// loosens the upper bounds it is used for.
+		pto = max(pto, 200*time.Millisecond)
 	}
-	return st.SmoothedRTT + max(4*st.MeanDeviation, time.Millisecond) + maxAckDelay
+	return pto + maxAckDelay
 }
 
 // ---------------------------------------------------------------- scripted cause
@@ -680,6 +705,15 @@ func (s *shutRun) causeAction(atNS int64) {
 		s.closeConn(sc.Side, sc.Code, sc.Reason)
 	case "tr-close":
 		s.closeTransport(sc.Side)
+	case "proto":
+		// the peer of sc.Side misbehaves: a packet sealed with the connection's real keys carrying a frame that a
+		// conformant stack never sends (the observer knows the keys from the key log)
+		if pkt := s.sealMisbehaving(sc.Side); pkt != nil {
+			s.mu.Lock()
+			s.protoNS = s.stamp()
+			s.mu.Unlock()
+			s.w.InjectTo(1-sc.Side, pkt)
+		}
 	case "ln-close":
 		s.mu.Lock()
 		s.lnCloseNS[0] = s.stamp()
@@ -720,18 +754,64 @@ func (s *shutRun) causeAction(atNS int64) {
 			st = cs.streams[0]
 		}
 		s.mu.Unlock()
+		b := wPayload(sc.Seed, 3, 300)
+		if c := s.sides[0].conn; c != nil && s.datagramsOn() {
+			s.call(0, "snddgram", false, func() error { return c.SendDatagram(b) })
+		}
 		if st != nil {
-			b := wPayload(sc.Seed, 3, 300)
 			s.call(0, "write", false, func() error { _, e := st.Write(b); return e })
 		}
 	}
+}
+
+// sealMisbehaving builds a 1-RTT packet from the peer of `victim` that violates a limit: a STREAM frame far beyond the
+// stream limit (STREAM_LIMIT_ERROR) or a MAX_STREAMS frame with an impossible value (FRAME_ENCODING_ERROR).
+func (s *shutRun) sealMisbehaving(victim int) []byte {
+	d := 1 - victim // direction = sender
+	s.w.mu.Lock()
+	defer s.w.mu.Unlock()
+	s.w.Tap.mu.Lock()
+	defer s.w.Tap.mu.Unlock()
+	s.mu.Lock()
+	last := s.lastPkt[d]
+	s.mu.Unlock()
+	if last == nil || last.Conn == nil || len(last.Conn.appKeys[d]) == 0 {
+		return nil
+	}
+	c := last.Conn
+	k := c.appKeys[d][c.phase[d]]
+	pn := uint64(c.largest[d][2] + 40)
+	var payload []byte
+	if s.sc.Code%2 == 0 {
+		id := uint64(4000 + d) // a stream initiated by the sender, far beyond any limit of this workload
+		payload = []byte{0x0a, byte(0x40 | id>>8), byte(id), 1, 0x55}
+		s.protoCode = 0x04
+	} else {
+		payload = []byte{0x12, 0xd0, 0, 0, 0, 0, 0, 0, 1} // MAX_STREAMS 2^60+1
+		s.protoCode = 0x07
+	}
+	hdr := []byte{0x40 | byte(c.phase[d]&1)<<2 | 3}
+	hdr = append(hdr, last.DCID...)
+	pnOff := len(hdr)
+	hdr = append(hdr, byte(pn>>24), byte(pn>>16), byte(pn>>8), byte(pn))
+	nonce := append([]byte{}, k.iv...)
+	for i := 0; i < 8; i++ {
+		nonce[len(nonce)-1-i] ^= byte(pn >> (8 * i))
+	}
+	pkt := append(append([]byte{}, hdr...), k.aead.Seal(nil, nonce, payload, hdr)...)
+	m := k.mask(pkt[pnOff+4 : pnOff+20])
+	pkt[0] ^= m[0] & 0x1f
+	for i := 0; i < 4; i++ {
+		pkt[pnOff+i] ^= m[1+i]
+	}
+	return pkt
 }
 
 // ---------------------------------------------------------------- run
 
 func (sc *ShutScenario) hasAction() bool {
 	switch sc.Cause {
-	case "close", "tr-close", "ln-close", "dial-cancel", "reset":
+	case "close", "tr-close", "ln-close", "dial-cancel", "reset", "proto":
 		return true
 	}
 	return false
@@ -763,7 +843,7 @@ func shutRunSim(t *testing.T, ksc KScenario, res *KResult) {
 		if oldSend != nil {
 			oldSend(rec, data)
 		}
-		if len(rec.Pkts) == 1 && rec.Pkts[0].Type == Tap1RTT && rec.Pkts[0].Opened && len(data) > 60 && len(data) < 400 {
+		if len(rec.Pkts) == 1 && rec.Pkts[0].Type == Tap1RTT && rec.Pkts[0].Opened && len(data) < 400 {
 			ok := true
 			for i := range rec.Pkts[0].Frames {
 				if n := rec.Pkts[0].Frames[i].Name; n == "CONNECTION_CLOSE" || n == "CONNECTION_CLOSE_APP" {
@@ -771,7 +851,11 @@ func shutRunSim(t *testing.T, ksc KScenario, res *KResult) {
 				}
 			}
 			if ok {
+				s.lastPkt[rec.Dir] = rec.Pkts[0]
 				s.last1RTT[rec.Dir] = append([]byte{}, data...)
+				if len(data) > 60 {
+					s.lastBig[rec.Dir] = s.last1RTT[rec.Dir]
+				}
 			}
 		}
 	}
@@ -828,7 +912,7 @@ func shutRunSim(t *testing.T, ksc KScenario, res *KResult) {
 	s.execute()
 	s.judge()
 	if len(s.deferred) > 0 && !res.Failed() && res.Blocked == "" {
-		s.report(s.deferred[0][0], "%s", s.deferred[0][1])
+		s.known(s.deferred[0][0], "%s", s.deferred[0][1])
 	}
 	s.trace()
 }
@@ -930,6 +1014,7 @@ func (s *shutRun) waitEnds(d time.Duration) {
 func (s *shutRun) execute() {
 	sc := s.sc
 	maxIdle := max(s.cfgIdle[0], s.cfgIdle[1])
+	time.Sleep(time.Microsecond) // no event of the run carries the timestamp 0
 	s.t0NS = s.now()
 	dctx, dcancel := context.WithCancelCause(context.Background())
 	s.dialCancel = dcancel
@@ -1147,6 +1232,7 @@ type shutCC struct {
 	ord         int
 	sentNS      int64
 	deliveredNS int64 // first intact delivery, -1 = never
+	maybeNS     int64 // first delivery in which the packet was not itself damaged (its framing may have been), -1 = never
 	ptype       int
 	app         bool
 	code        uint64
@@ -1253,9 +1339,12 @@ func (s *shutRun) judge() {
 					if f.Name != "CONNECTION_CLOSE" && f.Name != "CONNECTION_CLOSE_APP" {
 						continue
 					}
-					cc := shutCC{dir: d, main: p.Conn == tc, ord: rec.Ord, sentNS: rec.SentNS, deliveredNS: -1, ptype: p.Type, app: f.Name == "CONNECTION_CLOSE_APP", code: f.Code, reason: f.Reason, ftype: f.FType}
+					cc := shutCC{dir: d, main: p.Conn == tc, ord: rec.Ord, sentNS: rec.SentNS, deliveredNS: -1, maybeNS: -1, ptype: p.Type, app: f.Name == "CONNECTION_CLOSE_APP", code: f.Code, reason: f.Reason, ftype: f.FType}
 					if len(rec.Delivered) > 0 && rec.PktState[i] == 0 {
 						cc.deliveredNS = rec.Delivered[0]
+					}
+					if len(rec.Delivered) > 0 && rec.PktState[i] != 2 {
+						cc.maybeNS = rec.Delivered[0]
 					}
 					ccs = append(ccs, cc)
 				}
@@ -1433,7 +1522,7 @@ func (s *shutRun) judgeCause(k int, v *shutView, ccs []shutCC, tc *TapConn) {
 		}
 		ok := false
 		for _, cc := range ccs {
-			if cc.dir != 1-k || cc.deliveredNS < 0 || cc.deliveredNS > D {
+			if cc.dir != 1-k || cc.maybeNS < 0 || cc.maybeNS > D {
 				continue
 			}
 			if v.class == "app-remote" {
@@ -1469,6 +1558,12 @@ func (s *shutRun) judgeCause(k int, v *shutView, ccs []shutCC, tc *TapConn) {
 		switch {
 		case sc.Cause == "alpn" && k == 1 && crypto, sc.Cause == "cert" && k == 0 && crypto:
 		case sc.Cause == "ln-close" && k == 1 && code == 2 && s.lnCloseNS[0] > 0 && D >= s.lnCloseNS[0] && (v.complete == 0 || v.complete >= s.lnCloseNS[0]):
+		case k == 1 && code == 2 && s.trClosed[1] && D >= s.trCloseNS[1][0] && (v.complete == 0 || v.complete >= s.trCloseNS[1][0]):
+			// Transport.Close refuses the handshakes that are still in flight (that is what the code does; allowed: a
+			// CONNECTION_CLOSE is due for a handshake the server will not complete)
+		case sc.Cause == "proto" && k == sc.Side && s.protoNS > 0 && code == s.protoCode && D >= s.protoNS:
+		case k == 0 && code == 0x0d && sc.Cfg.ChainLen >= 24:
+			// a certificate chain larger than the client's crypto buffer: a genuine, locally detected transport error
 		default:
 			if kf := wKnownC12(s.w, &sc.Cfg, k, code); kf != "" {
 				s.res.Blocked = kf
@@ -1496,7 +1591,7 @@ func (s *shutRun) judgeCause(k int, v *shutView, ccs []shutCC, tc *TapConn) {
 		ok := false
 		for _, rec := range s.w.Log[1-k] {
 			for _, p := range rec.Pkts {
-				if p.Type == TapUnknown && len(rec.Delivered) > 0 && rec.Delivered[0] <= D && !rec.Damaged {
+				if !p.Opened && (p.Type == TapUnknown || p.Type == Tap1RTT) && len(rec.Delivered) > 0 && rec.Delivered[0] <= D {
 					ok = true
 				}
 			}
@@ -1517,12 +1612,13 @@ func (s *shutRun) judgeCause(k int, v *shutView, ccs []shutCC, tc *TapConn) {
 }
 
 func (s *shutRun) firstDeliveryTo(k int) int64 {
+	first := int64(0)
 	for _, rec := range s.w.Log[1-k] {
-		if len(rec.Delivered) > 0 {
-			return rec.Delivered[0]
+		if len(rec.Delivered) > 0 && (first == 0 || rec.Delivered[0] < first) {
+			first = rec.Delivered[0]
 		}
 	}
-	return 0
+	return first
 }
 
 // lastProven: delivery time of the last packet side k acknowledged before ns (0 = none); see World.starvedFor.
@@ -1536,13 +1632,15 @@ func (s *shutRun) idleRefs(k int, tc *TapConn, D int64) (lastDelivery, firstAEAf
 	}
 	firstAEAfter = lastDelivery
 	for _, rec := range s.w.Log[k] {
-		if rec.SentNS < lastDelivery || rec.SentNS > D {
-			continue
+		if rec.SentNS <= lastDelivery || rec.SentNS > D {
+			continue // (a packet sent in the very instant of the last delivery may have been sent before it was processed)
 		}
 		ae := false
 		for _, p := range rec.Pkts {
-			if !p.Opened || p.AckEliciting() {
-				ae = true // packets the observer cannot open count as ack-eliciting (conservative for an upper bound)
+			// packets of this connection only (a second server-side connection grown from a duplicated ClientHello
+			// shares the address); the observer opens every packet of the connection it follows
+			if p.Conn == tc && p.Opened && p.AckEliciting() {
+				ae = true
 			}
 		}
 		if ae {
@@ -1551,6 +1649,45 @@ func (s *shutRun) idleRefs(k int, tc *TapConn, D int64) (lastDelivery, firstAEAf
 		}
 	}
 	return
+}
+
+// firstControlAE: the known defect's fingerprint. Returns the send time of a packet q after the last delivery such
+// that the timeout fits "q + idle period" and every ack-eliciting packet of the connection sent before q (since the
+// last delivery) carried nothing but STREAM frames.
+func (s *shutRun) firstControlAE(k int, tc *TapConn, after, D, span int64) int64 {
+	onlyStream := true
+	first := true
+	for _, rec := range s.w.Log[k] {
+		if rec.SentNS <= after || rec.SentNS > D {
+			continue
+		}
+		ae, pure := false, true
+		for _, p := range rec.Pkts {
+			if p.Conn != tc || !p.Opened {
+				continue
+			}
+			for i := range p.Frames {
+				if f := &p.Frames[i]; f.AckEliciting() {
+					ae = true
+					if f.Name != "STREAM" {
+						pure = false
+					}
+				}
+			}
+		}
+		if !ae {
+			continue
+		}
+		if !first && onlyStream && D <= rec.SentNS+span {
+			return rec.SentNS
+		}
+		first = false
+		onlyStream = onlyStream && pure
+		if !onlyStream {
+			return 0
+		}
+	}
+	return 0
 }
 
 func (s *shutRun) judgeIdle(k int, v *shutView, tc *TapConn) {
@@ -1605,7 +1742,11 @@ func (s *shutRun) judgeIdle(k int, v *shutView, tc *TapConn) {
 		}
 		pto := shutPTO(sd.conn, mad)
 		upper := start + int64(s.cfgIdle[k]) + 3*int64(pto) + 2*shutPrompt
-		if D > upper {
+		if alt := s.firstControlAE(k, tc, lastDel, D, int64(s.cfgIdle[k])+3*int64(pto)+2*shutPrompt); D > upper && alt > 0 {
+			// known defect: 1-RTT packets sent through the coalesced-packet path (PTO probes) that carry only STREAM
+			// frames are not counted as ack-eliciting when the start of the idle period is recorded
+			s.known("(6) idle period restarted by a later packet: probe packets carrying only STREAM frames are not counted as ack-eliciting", "side %d: last delivery %v, first ack-eliciting packet sent after it %v, the packet the period was counted from %v, fired %v; configured %v, PTO %v", k, time.Duration(lastDel), time.Duration(firstAE), time.Duration(alt), time.Duration(D), s.cfgIdle[k], pto)
+		} else if D > upper {
 			s.report("(6) idle timeout fired much later than the idle period after the last activity", "side %d: last delivery %v, first ack-eliciting packet sent after it %v, fired %v; configured %v, PTO %v", k, time.Duration(lastDel), time.Duration(firstAE), time.Duration(D), s.cfgIdle[k], pto)
 		}
 		s.res.Probe("idle-timing-checked:established")
@@ -1624,6 +1765,12 @@ func (s *shutRun) judgeWire(k int, v *shutView, ccs []shutCC, tc *TapConn) {
 	local := v.class == "app-local" || v.class == "tr-local"
 	if !local {
 		if len(mine) > 0 && (v.done || v.class == "alive") {
+			if v.class == "reset" {
+				// known defect: a stateless reset recognised by the connection itself (packet routed to it: zero-length
+				// or matching connection ID) is answered with CONNECTION_CLOSE(INTERNAL_ERROR)
+				s.known("(4) CONNECTION_CLOSE sent although none is due ("+v.class+")", "side %d: cause %v; frames %+v", k, v.cause, mine)
+				return
+			}
 			s.report("(4) CONNECTION_CLOSE sent although none is due ("+v.class+")", "side %d: cause %v; frames %+v", k, v.cause, mine)
 		}
 		return
@@ -1739,6 +1886,16 @@ func (s *shutRun) judgeExact(v [2]*shutView) {
 		s.report("(3) fault-free run: "+sc.Cause+" did not end the connection with the expected cause (got "+v[k].class+")", "side %d: cause %v at %v; expected one of %v", k, v[k].cause, time.Duration(v[k].doneNS), classes)
 	}
 	fired := s.causeFiredNS > 0
+	finalClosed := false
+	for k := 0; k < 2; k++ {
+		for _, cl := range s.sides[k].closes {
+			finalClosed = finalClosed || cl.reason == shutDoneMsg
+		}
+	}
+	if finalClosed && (sc.Cause == "idle" || sc.Cause == "tr-close" || sc.Cause == "reset") {
+		s.res.Probe("exact-expectation-skipped-horizon")
+		return // the harness ran out of patience before the idle periods were over
+	}
 	switch sc.Cause {
 	case "close":
 		if both && fired && len(s.sides[sc.Side].closes) > 0 {
@@ -1749,6 +1906,11 @@ func (s *shutRun) judgeExact(v [2]*shutView) {
 			}
 			want(1-a, "app-remote", "tr-remote")
 		}
+	case "proto":
+		if both && s.protoNS > 0 {
+			want(sc.Side, "tr-local")
+			want(1-sc.Side, "tr-remote")
+		}
 	case "idle":
 		if both {
 			want(0, "idle")
@@ -1757,7 +1919,13 @@ func (s *shutRun) judgeExact(v [2]*shutView) {
 	case "reset":
 		if both && s.resetDone {
 			want(1, "tr-closed")
-			want(0, "reset")
+			poked := false
+			for _, rec := range s.w.Log[0] {
+				poked = poked || (rec.SentNS > s.trCloseNS[1][1] && rec.Size > 43 && len(rec.Delivered) > 0)
+			}
+			if poked {
+				want(0, "reset")
+			}
 		}
 	case "tr-close":
 		if both && fired && sc.Base == "est" {
